@@ -6,6 +6,8 @@ Pop3.tla with Pop3Trace.tla.
 import json
 import random
 
+from lib.vlib import Inconclusive
+
 ALL_CMDS = ["user", "usernoarg", "pass", "passnoarg", "apop", "stat", "list", "uidl", "dele", "retr", "top", "rset", "noop",
             "capa", "unknown", "empty", "garbage", "long", "stls", "quit", "drop", "cut", "connect", "deliver", "remove", "purge"]
 ALL_ARGS = ["valid", "marked", "zero", "neg", "over", "huge", "nonnum", "missing", "extra"]
@@ -336,6 +338,19 @@ def c13(run, args):
     beh += behaviours_from(run, sim, stores_for(sim, rot if quick else both), "sim")
     run.cov["samples"] = [tour[len(tour) // 2], bfs[len(bfs) // 2], sim[0][:16]] if tour and bfs and sim else []
     replay_and_validate(run, vh, beh, "c13")
+    # the implementation-shaped model of the session (Pop3Impl.tla: retain flags and the redundant counter msgCount): the contract's
+    # invariants and step properties hold of the code's steps; the two named deviations must make TLC find the predicted failures
+    impl_cfg = lambda a, b: ("SPECIFICATION ISpec\nCONSTANTS\n  Mailbox = {\"a\", \"b\"}\n  MaxMsgs = 2\n  RsetKeepsCount = %s\n  RangeByCount = %s\n"
+                             "INVARIANTS TypeOK NoSnapshotBeforeLogin LoggedInHasUser SnapIdsDistinct ViewsAgree CountInv\n"
+                             "PROPERTIES ShownIsListed ShownIsDeletable StepProps OnlyQuitRemoves\nCHECK_DEADLOCK FALSE\n" % (a, b))
+    run.model_check("Pop3Impl", impl_cfg("FALSE", "FALSE"), label="Pop3Impl (session loop as written)", workers=4)
+    for name, flags in (("RsetKeepsCount", ("TRUE", "FALSE")), ("RangeByCount", ("FALSE", "TRUE"))):
+        rc, out, dt = run.tlc("Pop3Impl", impl_cfg(*flags), workers=4, timeout=600, heap="4g")
+        predicted = [x for x in ("CountInv", "ShownIsListed", "ShownIsDeletable") if ("%s is violated" % x) in out]
+        run.cov["stages"].append({"stage": "model-check", "module": "Pop3Impl(%s=TRUE)" % name, "mode": "prediction", "violated_as_predicted": predicted, "wall_s": round(dt, 1)})
+        run.log("Pop3Impl with %s: predicted counterexample found for %s" % (name, predicted))
+        if not predicted:
+            raise Inconclusive("the deviation %s of Pop3Impl no longer produces its predicted failure: model and check have drifted apart" % name)
     stls_stage(run, vh, quick)
     run.cov["rule"] = ("TLC walks every edge (state, command with argument class) of the Pop3 contract's bounded state graph once (transition tour; each edge is "
                        "followed by STAT, LIST, UIDL and QUIT so that the snapshot, the marks and the commit become visible), enumerates every sequence over "
